@@ -97,6 +97,22 @@ def run(chk):
                 chk.ob("R-FAS-TYPE", c + ".spacing", "the bins are reported at k / (N * dt), N the FFT length (for every N, odd ones included)", verdict == "equal",
                        derived="spacing 1 / (%r * dt), FFT length %r%s" % (X, nfft, "" if verdict == "equal" else " (%s)" % why), loc=gd[-1].loc,
                        stmt=gd[-1].stmt, inconclusive=verdict == "unknown")
+        if not gd and nfft is not None:
+            # the grid written as np.linspace(0, S, count, endpoint=False): spacing S / count.  With count = int(N / 2) and an end point S
+            # that does not depend on the transform length (a Nyquist constant 0.5 / dt), the spacing is 1 / (2 * int(N / 2) * dt): N = 2
+            # and N = 3 have the same count 1 and would need S = 1 / (2 dt) and S = 1 / (3 dt) at once -- decided where N can be odd
+            for e_ in [e for e in r.events("lib-call", q) if e.name == "numpy.linspace" and len(e.args) >= 3]:
+                ep = e_.kwargs.get("endpoint")
+                st_, sp_, cnt = e_.args[0], e_.args[1], e_.args[2]
+                if not (ep is not None and ep.has_const() and ep.const is False and st_.has_const() and st_.const == 0 and cnt.sym is not None):
+                    continue
+                verdict, why = compare_index_exprs(LinExpr(cnt.sym).scale(2), nfft,
+                                                   samples=list(range(2, 70)) + [127, 128, 129, 255, 256, 257, 1000, 1023, 1024, 1025, 4683, 4684])
+                indep = not ({"len-of", "fft:fft", "attr:_values", "attr:_npts"} & set(sp_.tags)) and sp_.kind == K_SCALAR
+                if verdict == "differ" and indep:
+                    chk.ob("R-FAS-TYPE", c + ".spacing", "the bins are reported at k / (N * dt), N the FFT length (for every N, odd ones included)", False,
+                           derived="linspace(0, S, %r, endpoint=False) with S independent of the FFT length %r: spacing 1 / (2 * count * dt), and 2 * count "
+                                   "is not N (%s)" % (cnt.sym, nfft, why), loc=e_.loc, stmt=e_.stmt)
         results[(impl, cfg)] = (repr(nfft), repr(ls), spec.describe((R, DT)) if spec is not None else None,
                                 grid.describe((R, DT)) if grid is not None else None)
         # (the syntactic `.grid-form` rule is superseded by the `.spacing` obligation above, which reads the divisor off the arithmetic events and so
